@@ -298,6 +298,10 @@ func originMatchesHost(c fiber.Ctx, trustedOrigins []string, trustedSubOrigins [
 		return nil
 	}
 
+	// compare the origin (scheme and host) only: a path, query or fragment in the header
+	// must not take part in the (wildcard) comparison with the trusted origins
+	origin = originURL.Scheme + "://" + originURL.Host
+
 	for _, trustedOrigin := range trustedOrigins {
 		if origin == trustedOrigin {
 			return nil
